@@ -79,9 +79,12 @@ def families(env):
     return F
 
 
-def build_family(env, name, n, diamond=True):
+def build_family(env, name, n, diamond=True, reject=False):
     """n levels.  diamond=True: every level uses the previous term twice
-    (tree size exponential); diamond=False: a left-deep chain."""
+    (tree size exponential); diamond=False: a left-deep chain.  reject=True:
+    after every level an ill-typed application of the current term is
+    attempted (and refused), as a parser that tries alternative readings
+    does."""
     import pysmt.typing as T
     mgr = env.formula_manager
     sort, step = families(env)[name]
@@ -95,6 +98,17 @@ def build_family(env, name, n, diamond=True):
             x = step(x, a, b, p, q)
         else:
             x = chain_step(mgr, name, sort, x, a, p)
+        if reject:
+            try:
+                if sort.is_bool_type():
+                    mgr.Plus(x, mgr.Int(1))
+                else:
+                    mgr.And(x, p)
+                raise AssertionError('ill-typed application accepted')
+            except AssertionError:
+                raise
+            except Exception:
+                pass
     if sort.is_bv_type():
         # an operator whose construction asks for the width of the deep term
         y = mgr.Symbol('c20_y_%s' % name, sort)
@@ -360,6 +374,14 @@ def procedures(env, cc):
     return P
 
 
+def run_construction_rejections(rep, env, name, n):
+    """Construction interleaved with refused ill-typed applications."""
+    c = Counter()
+    wrap_walker(env.stc, c)
+    f = build_family(env, name, n, diamond=True, reject=True)
+    return c.n, f
+
+
 def run_construction(rep, env, name, n):
     """Type-check callbacks during construction (create_node -> stc)."""
     c = Counter()
@@ -402,7 +424,7 @@ def run(rep):
     for fam in fams:
         env = common.fresh_env()
         P = procedures(env, cc)
-        pnames = sorted(P) + ['construction']
+        pnames = sorted(P) + ['construction', 'construction_rejections']
         for proc in pnames:
             idx += 1
             if idx % rep.nshards != rep.shard:
@@ -423,10 +445,13 @@ def run(rep):
                 for n in (N1, N2):
                     e2 = common.fresh_env()
                     P2 = procedures(e2, cc)
-                    if proc == 'construction':
+                    if proc in ('construction', 'construction_rejections'):
                         cc.start(None)
                         try:
-                            k, f = run_construction(rep, e2, fam, n)
+                            k, f = (run_construction if proc ==
+                                    'construction' else
+                                    run_construction_rejections)(
+                                        rep, e2, fam, n)
                         finally:
                             work, walks = cc.stop()
                         size = dag_size(f)
@@ -505,7 +530,8 @@ def run(rep):
             # (bottom-up flattening of a left-deep n-ary chain memoises a
             # result with k arguments at level k: quadratic by design, see
             # DESIGN.md; not measured here)
-            if proc != 'construction' and idx % 2 == 0 and not flattening:
+            if not proc.startswith('construction') and idx % 2 == 0 \
+                    and not flattening:
                 import tracemalloc
                 peaks = []
                 try:
@@ -555,6 +581,9 @@ def run(rep):
                 P3 = procedures(e3, cc)
                 if proc == 'construction':
                     f = build_family(e3, fam, depth, diamond=False)
+                elif proc == 'construction_rejections':
+                    f = build_family(e3, fam, min(depth, 3000),
+                                     diamond=False, reject=True)
                 else:
                     f = build_family(e3, fam, depth, diamond=False)
                     cc.start(None if quadratic
